@@ -35,4 +35,8 @@ CLAIMED = {
   technique="TLA+ model of the lock / wait-queue / event / semaphore protocol (SysSync.tla) with every interleaving of small closed programs checked by TLC (safety invariants + no-lost-wakeup liveness under weak fairness); executions of real threads recorded at guarded hook points and validated step by step by the trace specification; ThreadSanitizer run for data races",
   text="TLC enumerates all schedules of 3-4 threads at the granularity of synchronisation operations for five program configurations: mutual exclusion and re-entrancy of the system lock, save/restore, wake order, exactly-one wake, no spurious return, no lost wake-up (liveness), no touch of a waiter's event after the waiter destroyed it (the model rejects the former notify-after-unlock order), safe_queue order. The same effect operators judge hook-recorded executions of random closed programs on real threads with seeded preemption at every hook; data races are observed by ThreadSanitizer.",
   note=NOTE + " Hooks: IGRIS_VERIF_POINT in syslock_mutex.cpp, wait.cpp, wait-linux.cpp, syncxx/event.h, event/safe_queue.h (guard IGRIS_VERIF)."),
+ "C17": dict(
+  technique="TLA+ definitions of the CRCs as polynomial division over bit sequences (Crc.tla); their laws (chunking, residue, table form = bit-serial form for all 65536 (seed,byte) pairs) checked by TLC; every recorded call of the real routines validated by TLC against the definitions",
+  text="The definitions are first model-checked against their own laws over enumerated seeds and messages, then judge the implementation: (seed,byte) pairs of the three 8-bit routines, all messages up to length 3 over {00,01,80,FF} with every split point, random messages of every length 0..255 (quick: 0..70 and boundary lengths) at every alignment with a random split, in right-aligned exactly sized heap blocks under ASan.",
+  note=NOTE),
 }
